@@ -783,6 +783,12 @@ fn e_sched(cx: &RunCtx) {
         vec![vec![by("f64", "5!+w(1)", 0), by("f64", "6!+w(2)", 0)], vec![by("f64", "6!+w(2)", 0), by("f64", "5!+w(1)", 0)]],
         vec![vec![by("i64", "med(70,1/0)", 0), by("i64", "med(30,10,20)", 0)], vec![by("i64", "gcd(35,49)+6!", 0), by("i64", "gcd(12,18,24)+5!", 0)]],
     ];
+    // the same function argument in two evaluators (a memo or constant table shared between evaluators), and
+    // tokenizer / parser failures next to a successful call of another evaluator
+    scenarios.push(vec![vec![by("decimal", "w(2)", 0), by("number", "w(10)", 0)], vec![by("number", "w(2)", 0), by("decimal", "w(10)", 0)]]);
+    scenarios.push(vec![vec![by("f64", "w(2)", 0), by("number", "w(2)", 0)], vec![by("number", "w(10)", 0), by("f64", "w(10)", 0)]]);
+    scenarios.push(vec![vec![by("decimal", "((2+", 0), by("decimal", "(1+2)*3", 0)], vec![by("number", "min(2,", 0), by("number", "(1+2)*3", 0)]]);
+    scenarios.push(vec![vec![by("complex", "((2+", 0), by("complex", "(1+2)*3", 0)], vec![by("complex", "1)", 0), by("complex", "sqrt(3+4i)", 0)]]);
     if !quick {
         scenarios.push(vec![vec![by("f64", "med(30,10,20)", 0)], vec![by("f64", "med(90,70,80,60)", 0)], vec![by("f64", "@+1", 1)]]);
         scenarios.push(vec![vec![by("i64", "med(30,10,20)", 0)], vec![by("i64", "@+1", 0)], vec![by("i64", "@+1", 1)]]);
